@@ -3,8 +3,9 @@
     [bf_model]: Bellman-Ford as transcribed from shortest_path.rs l.346-424: the edge list is the
     concatenation of edges_from(node, Outgoing) over node_ids(); n-1 rounds of relaxation in that
     order with strict improvement and early exit; then one pass that flags a negative cycle.
-    [kruskal_model]: Kruskal as transcribed from mst.rs l.87-165, including the seen_edges filter
-    that keeps only the first edge met between a pair of nodes (finding C19-K1). *)
+    [kruskal_model]: Kruskal as transcribed from mst.rs l.87-160 (after repair f6a1e05: every edge
+    enumerated from its source takes part).  [kruskal_pre]: the code before that repair, with the
+    seen_edges filter that kept only the first edge met between a pair of nodes (finding C19-K1). *)
 From Coq Require Import ZArith List Bool.
 From GV Require Export Algo.Cert.
 Import ListNotations.
@@ -44,7 +45,7 @@ Definition bf_model (g : graph) (s : Z) : list (Z * Z) * list (Z * Z) * bool :=
        (fst dp, snd dp, neg_check (edges g) (fst dp))
   else ([], [], false).
 
-(** Kruskal as implemented.  Sorting is a stable insertion sort by weight (Rust's sort_by is stable);
+(** Kruskal.  Sorting is a stable insertion sort by weight (Rust's sort_by is stable);
     the union-find only answers "are the two ends already connected by the chosen edges". *)
 Definition pair_key (e : edge) : Z * Z := if esrc e <? edst e then (esrc e, edst e) else (edst e, esrc e).
 Definition key_eqb (a b : Z * Z) : bool := (fst a =? fst b) && (snd a =? snd b).
@@ -71,13 +72,13 @@ Fixpoint kruskal_loop (fuel : nat) (stop : nat) (es chosen : list edge) : list e
 Definition kruskal_model (g : graph) : list edge :=
   match nodes g with
   | [] => []
-  | _ => kruskal_loop (fuel_of g) (length (nodes g) - 1) (sort_by_w (first_per_pair (edges g) [])) []
+  | _ => kruskal_loop (fuel_of g) (length (nodes g) - 1) (sort_by_w (edges g)) []
   end.
-(** the same without the seen_edges filter (the proposed repair) *)
-Definition kruskal_fixed (g : graph) : list edge :=
+(** the code before repair f6a1e05: only the first edge enumerated between a pair of nodes takes part *)
+Definition kruskal_pre (g : graph) : list edge :=
   match nodes g with
   | [] => []
-  | _ => kruskal_loop (fuel_of g) (length (nodes g) - 1) (sort_by_w (edges g)) []
+  | _ => kruskal_loop (fuel_of g) (length (nodes g) - 1) (sort_by_w (first_per_pair (edges g) [])) []
   end.
 
 (** Dijkstra as transcribed from shortest_path.rs l.99-144: binary heap with lazy deletion (a popped
